@@ -38,9 +38,16 @@ pub fn check(h: &FHistory, ex: &FExec, obs: &mut Obs) -> Vec<Violation> {
                 let tree = bmff::parse_tree(bytes);
                 let frag = bmff::parse_fragment(bytes, &tree, None);
                 let n = queue.len();
-                if frag.samples.len() != n || n == 0 {
+                if n == 0 {
                     queue.clear();
-                    continue; // C10's business
+                    continue;
+                }
+                if frag.samples.len() != n {
+                    // a segment that does not describe exactly the accepted writes cannot have
+                    // "consecutive decode-time differences equal to the submitted ones"
+                    out.push(v("segment-sample-count".into(), format!("op #{}: segment describes {} samples, {} writes were accepted since the last flush", i, frag.samples.len(), n)));
+                    queue.clear();
+                    continue;
                 }
                 let oversize = queue.windows(2).any(|w| w[1].1 - w[0].1 > u32::MAX as u64)
                     || queue.iter().any(|q| (q.0 as i128 - q.1 as i128).abs() > i32::MAX as i128);
